@@ -2,6 +2,7 @@ package gose
 
 import (
 	"fmt"
+	"go/token"
 	"go/types"
 	"strings"
 
@@ -159,6 +160,25 @@ func init() {
 		return nil
 	}
 	in[rtPrefix+"Symbolic"] = func(fr *frame, a []value) value { return true }
+	// sort.Slice for at most 12 elements is exactly the insertion sort pdqsort_func starts with
+	// (sort/zsortfunc.go: insertionSort_func); the comparison closure is interpreted, its symbolic
+	// outcomes are path decisions.
+	in["sort.Slice"] = func(fr *frame, a []value) value {
+		s, ok := a[0].(iface).v.([]value)
+		if !ok {
+			panic(unsupported("sort.Slice over a non-slice value"))
+		}
+		if len(s) > 12 {
+			panic(unsupported("sort.Slice over more than 12 elements (pdqsort beyond its insertion sort prefix is not modelled)"))
+		}
+		for i := 1; i < len(s); i++ {
+			for j := i; j > 0 && fr.i.truth(call(fr.i, fr, token.NoPos, a[1], []value{j, j - 1}), nil); j-- {
+				s[j], s[j-1] = s[j-1], s[j]
+			}
+		}
+		return nil
+	}
+	in[rtPrefix+"Reps"] = func(fr *frame, a []value) value { return 1 }
 	in[rtPrefix+"MapOrder"] = func(fr *frame, a []value) value {
 		name, _ := argStr(a[0])
 		fr.i.x.permNext = name
